@@ -554,7 +554,26 @@ def check_C07(tier, seed):
                                "accepted as any BASIC error other than INTERNAL ERROR"])
 
 
-CHECKS = {"C07": check_C07, "C20": check_C20, "C15": check_C15, "C13": check_C13, "C12": check_C12, "C08": check_C08, "C01": check_C01, "C04": check_C04, "C06": check_C06}
+def check_C02(tier, seed):
+    t0 = time.time()
+    st = tlc_replay_stage("C02", "MC_C02.tla", "MC_C02_%s.cfg" % tier, timeout=1800)
+    rnd = gen_sessions(seed + 3, 60 if tier == "quick" else 1500, "C02r")
+    st2 = validate_sessions("C02", "rnd", rnd, timeout=3000)
+    return finish("C02", tier, seed, "model_checking", [st, st2], t0,
+                  rule="TLC enumerates on the value specification: every binary operator x every pair of boundary leaves of "
+                       "the four types (operands reach the VM through typed variables), unary operators and numeric "
+                       "functions over the leaves, every ordered pair of operators in both tree shapes rendered with "
+                       "minimal parentheses (and fully parenthesised), numeric literals by structure against the six typing "
+                       "rules, and assignment of every leaf to a target of every type (suffix or DEFtype); TypeLaw is "
+                       "checked on the specification; each case is replayed in the VM comparing value, type and error "
+                       "code; plus seeded random expression trees inside programs validated by trace validation; "
+                       "non-trivial = prec cases whose other grouping evaluates differently in the model, mixed-type or "
+                       "failing bin/let cases",
+                  assumptions=["floating-point content specified on short dyadic rationals only (types everywhere)",
+                               "harness renderer and comparator trusted"])
+
+
+CHECKS = {"C02": check_C02, "C07": check_C07, "C20": check_C20, "C15": check_C15, "C13": check_C13, "C12": check_C12, "C08": check_C08, "C01": check_C01, "C04": check_C04, "C06": check_C06}
 for _p in ("C09", "C10", "C11", "C17"):
     CHECKS[_p] = prog_check(_p)
 
